@@ -28,6 +28,7 @@ type Case struct {
 	Pipelined bool            `json:"pipelined,omitempty"`
 	Segs      []int           `json:"segs,omitempty"`
 	TLS       bool            `json:"tls,omitempty"` // authentication happens inside a TLS session
+	OptSeed   int             `json:"opt_seed,omitempty"`
 }
 
 func table() script.Table {
@@ -96,7 +97,7 @@ func Run(c Case) core.Result {
 		res.Labels = append(res.Labels, "nonaccept+continuation")
 	}
 
-	cfg := script.Config{Auth: &c.Auth, Table: table(), SetLimit: true, Limit: c.Limit}
+	cfg := script.Config{Auth: &c.Auth, Table: table(), SetLimit: true, Limit: c.Limit, OptSeed: c.OptSeed}
 	for i := 0; i < c.NMW; i++ {
 		cfg.MWs = append(cfg.MWs, script.MW{})
 	}
